@@ -455,6 +455,13 @@ func c19Pools(c *Ctx) {
 						ok1, why = true, "put back by a deferred closure"
 					}
 				}
+				if !ok1 {
+					if w, ok := explicitPutOnAllPaths(fn, call, put); ok {
+						ok1, why = true, w
+					} else if w != "" {
+						why = w
+					}
+				}
 				if ok1 {
 					c.R.OK(rule, key, c.P.Pos(call.Pos()), why)
 				} else {
@@ -565,4 +572,82 @@ func c19Goroutines(c *Ctx) {
 
 func inModulePkg(path string) bool {
 	return path == load.PkgWS || path == load.PkgWSUtil || path == load.PkgWSFlate
+}
+
+// explicitPutOnAllPaths accepts a Get whose object is put back by ordinary
+// (non-deferred) calls: every path from the Get to a return passes a Put of
+// the same object, and the object is not used after a Put.
+func explicitPutOnAllPaths(fn *ssa.Function, get *ssa.Call, put string) (string, bool) {
+	isPut := func(in ssa.Instruction) bool {
+		c, ok := in.(*ssa.Call)
+		if !ok {
+			return false
+		}
+		sc := c.Call.StaticCallee()
+		return sc != nil && sc.String() == put && len(c.Call.Args) == 1 && c.Call.Args[0] == ssa.Value(get)
+	}
+	uses := map[ssa.Instruction]bool{}
+	for _, r := range *get.Referrers() {
+		if !isPut(r) {
+			uses[r] = true
+		}
+	}
+	anyPut := false
+	for _, b := range fn.Blocks {
+		for _, in := range b.Instrs {
+			if isPut(in) {
+				anyPut = true
+			}
+		}
+	}
+	if !anyPut {
+		return "", false
+	}
+	// walk from the instruction after the Get; state: put already done or not
+	type node struct {
+		b    *ssa.BasicBlock
+		done bool
+	}
+	seen := map[node]bool{}
+	var msg string
+	var walk func(b *ssa.BasicBlock, start int, done bool) bool
+	walk = func(b *ssa.BasicBlock, start int, done bool) bool {
+		for i := start; i < len(b.Instrs); i++ {
+			in := b.Instrs[i]
+			if isPut(in) {
+				if done {
+					msg = "the pooled object is put back twice on a path"
+					return false
+				}
+				done = true
+				continue
+			}
+			if done && uses[in] {
+				msg = "the pooled object is used after it was put back"
+				return false
+			}
+			if _, ok := in.(*ssa.Return); ok && !done {
+				msg = "a path returns without putting the pooled object back"
+				return false
+			}
+			if _, ok := in.(*ssa.Panic); ok {
+				return true
+			}
+		}
+		for _, s := range b.Succs {
+			n := node{s, done}
+			if seen[n] {
+				continue
+			}
+			seen[n] = true
+			if !walk(s, 0, done) {
+				return false
+			}
+		}
+		return true
+	}
+	if walk(get.Block(), indexOf(get.Block(), get)+1, false) {
+		return "put back by an explicit Put on every path, no use afterwards", true
+	}
+	return msg, false
 }
